@@ -72,7 +72,13 @@ def shard_main(argv, worker):
         os.replace(fout + '.tmp', fout)
 
 
+def out_root():
+    # self-tests on deliberately broken trees must not overwrite the evidence of the real tree
+    return '/tmp/ciwmon_selftest' if os.environ.get('VERIF_NO_EVIDENCE') else ROOT
+
+
 def write_evidence(prop, tier, vseed, level, coverage, wall, violations, assumptions):
+    ROOT = out_root()
     os.makedirs(os.path.join(ROOT, 'evidence'), exist_ok=True)
     ev = dict(property_id=prop, tier=tier, seed=vseed, level=level, coverage=coverage, assumptions=assumptions,
               wall_s=round(wall, 2), violations=violations)
@@ -85,6 +91,7 @@ def write_evidence(prop, tier, vseed, level, coverage, wall, violations, assumpt
 
 def write_replay(prop, code, payload):
     import hashlib
+    ROOT = out_root()
     os.makedirs(os.path.join(ROOT, 'replays'), exist_ok=True)
     h = hashlib.sha1(json.dumps(payload, sort_keys=True, default=str).encode()).hexdigest()[:10]
     path = os.path.join(ROOT, 'replays', '%s-%s-%s.json' % (prop, code, h))
